@@ -85,6 +85,8 @@ def run(image, answers, horizon, device_ops=None, stop_after_io=None):
     r.io, r.trace, r.steps, r.fault, r.reads = [], [], [], None, 0
     ip, ops, nread = 0, 0, 0
     machine = {'mem': mem, 'valid': valid, 'w': w}
+    if device_ops:
+        device_ops(-1, 'attach', machine)  # what a device does when the run hands it the memory: before the first op, on the loaded image
     try:
         while True:
             if ops >= horizon:
